@@ -166,7 +166,8 @@ Theorem end_deferral_emits_held_once :
     twf t ->
     let l := snd (t_end t f) in
     NoDup (map fst l)
-    /\ (forall x, In x (map fst l) <-> holds_prefix t f x = true)
+    /\ (forall x k, In (x, k) l -> (k <> 0 <-> holds_prefix t f x = true))
+    /\ (forall x, holds_prefix t f x = true -> In x (map fst l))
     /\ t_deferring (fst (t_end t f)) f = false.
 Proof. exact C11_end_deferral_emits_held_once. Qed.
 Check end_deferral_emits_held_once :
@@ -174,7 +175,8 @@ Check end_deferral_emits_held_once :
     twf t ->
     let l := snd (t_end t f) in
     NoDup (map fst l)
-    /\ (forall x, In x (map fst l) <-> holds_prefix t f x = true)
+    /\ (forall x k, In (x, k) l -> (k <> 0 <-> holds_prefix t f x = true))
+    /\ (forall x, holds_prefix t f x = true -> In x (map fst l))
     /\ t_deferring (fst (t_end t f)) f = false.
 Print Assumptions end_deferral_emits_held_once.
 
@@ -182,22 +184,22 @@ Print Assumptions end_deferral_emits_held_once.
    formed, and an insert into a family whose flag is set returns NoChange, leaves
    the flag set and stores the path (the prefix is held when it is unfiltered). *)
 Theorem insert_while_deferring_is_held :
-  forall (ops : list tabop) (f : fam) (x p i : N) (b : bool),
+  forall (ops : list tabop) (f : fam) (x p i : N) (b : bool) (nh : N) (nv : bool),
     let t := fold_left (fun t o => fst (t_step t o)) ops [] in
     twf t
     /\ (t_deferring t f = true ->
-        snd (t_insert t f x p i b) = RNoChange
-        /\ t_deferring (fst (t_insert t f x p i b)) f = true
-        /\ (b = false -> holds_prefix (fst (t_insert t f x p i b)) f x = true)).
+        snd (t_insert t f x p i b nh nv) = RNoChange
+        /\ t_deferring (fst (t_insert t f x p i b nh nv)) f = true
+        /\ (b = false -> nv = false -> holds_prefix (fst (t_insert t f x p i b nh nv)) f x = true)).
 Proof. exact C11_insert_while_deferring_is_held. Qed.
 Check insert_while_deferring_is_held :
-  forall (ops : list tabop) (f : fam) (x p i : N) (b : bool),
+  forall (ops : list tabop) (f : fam) (x p i : N) (b : bool) (nh : N) (nv : bool),
     let t := fold_left (fun t o => fst (t_step t o)) ops [] in
     twf t
     /\ (t_deferring t f = true ->
-        snd (t_insert t f x p i b) = RNoChange
-        /\ t_deferring (fst (t_insert t f x p i b)) f = true
-        /\ (b = false -> holds_prefix (fst (t_insert t f x p i b)) f x = true)).
+        snd (t_insert t f x p i b nh nv) = RNoChange
+        /\ t_deferring (fst (t_insert t f x p i b nh nv)) f = true
+        /\ (b = false -> nv = false -> holds_prefix (fst (t_insert t f x p i b nh nv)) f x = true)).
 Print Assumptions insert_while_deferring_is_held.
 
 (* (9) Finding C11-2 (repaired): while a family is deferring, a withdrawal and a
@@ -219,3 +221,24 @@ Check mutators_quiet_while_deferring :
     /\ t_deferring (fst (t_remove t f x p i)) f = true
     /\ t_deferring (fst (t_drop t f p)) f = true.
 Print Assumptions mutators_quiet_while_deferring.
+
+Theorem marking_and_nexthop_quiet_while_deferring :
+  forall (t : table) (f : fam) (p nh : N) (rc : bool),
+    t_deferring t f = true ->
+    snd (t_restale t f p) = RChanges []
+    /\ snd (t_drop_stale t f p) = RChanges []
+    /\ t_deferring (fst (t_restale t f p)) f = true
+    /\ t_deferring (fst (t_drop_stale t f p)) f = true
+    /\ (NoDup (map fst t) ->
+        forall l, snd (t_nhvalid t nh rc) = RChangesF l -> forall x k, ~ In (f, x, k) l).
+Proof. exact C11_marking_and_nexthop_quiet_while_deferring. Qed.
+Check marking_and_nexthop_quiet_while_deferring :
+  forall (t : table) (f : fam) (p nh : N) (rc : bool),
+    t_deferring t f = true ->
+    snd (t_restale t f p) = RChanges []
+    /\ snd (t_drop_stale t f p) = RChanges []
+    /\ t_deferring (fst (t_restale t f p)) f = true
+    /\ t_deferring (fst (t_drop_stale t f p)) f = true
+    /\ (NoDup (map fst t) ->
+        forall l, snd (t_nhvalid t nh rc) = RChangesF l -> forall x k, ~ In (f, x, k) l).
+Print Assumptions marking_and_nexthop_quiet_while_deferring.
